@@ -281,6 +281,75 @@ def golden_timeout_case(res, base, k):
             {'opts': opts, 'stderr': run.stderr[-500:]})
 
 
+def limit_cases(res, base, k):
+    """Which limit each command runs under.  (a) automatic limits: each
+    command gets 1.5 x (its *own* golden run time + 1 s) - with a fast main
+    command and a cross check that needs 1.7 s the two differ by a factor
+    of three; (b) explicit --timeout / --timeout-cc that differ.  Decided on
+    the limit handed to every execute() (a logical quantity), not on
+    whether something timed out."""
+    text = '(declare-const a Int)\n(assert (> a 1))\n(check-sat)\n'
+    rules = realrun.simple_spec('has:assert')
+    small = ['--disable-all', '--erase-node', '--strategy',
+             ['ddmin', 'hierarchical'][k % 2]]
+    if k % 4 < 2:
+        case = 'automatic'
+        cc_rules = [realrun.rule('all', 3, 'cc\n', '', delay_us=1700000)]
+        opts = small
+        want_main = (1.5, 2.4)
+        want_cc = (4.0, 6.5)
+    else:
+        case = 'explicit'
+        cc_rules = [realrun.rule('all', 3, 'cc\n', '')]
+        opts = small + ['--timeout', '7', '--timeout-cc', '3']
+        want_main = (7, 7)
+        want_cc = (3, 3)
+    run = realrun.run_ddsmt(os.path.join(base, f'lim{k}'), text, rules,
+                            opts=opts, cc_spec=cc_rules,
+                            launcher={'monitors': ['check', 'exec']},
+                            timeout=200)
+    res.count('evaluations')
+    res.count('limit_cases')
+    if run.timed_out:
+        res.count('runs_watchdog')
+        return
+    witness = {'case': case, 'opts': opts, 'stderr': run.stderr[-400:]}
+    nmain = ncc = 0
+    for e in run.events:
+        if e['ev'] != 'exec':
+            continue
+        is_cc = any(str(a).endswith('spec_cc.txt') for a in e['argv'])
+        lo, hi = want_cc if is_cc else want_main
+        t = e.get('timeout')
+        if is_cc:
+            ncc += 1
+        else:
+            nmain += 1
+        if t is None:
+            # golden runs of the automatic case have no limit yet
+            continue
+        res.count('limits_compared')
+        if not (lo <= t <= hi):
+            witness['execute'] = {k_: e[k_] for k_ in ('argv', 'timeout',
+                                                       'dur')}
+            res.violation(
+                f'wrong-time-limit:{"cross-check" if is_cc else "main"}:'
+                f'{case}',
+                f'the {"cross-check" if is_cc else "main"} command ran '
+                f'under a limit of {t} s; with {case} limits it has to be '
+                f'within [{lo}, {hi}] ({" ".join(opts)})', witness)
+            return
+    if ncc < 2 or nmain < 2:
+        res.count('limit_cases_without_candidates')
+    out = (run.out_bytes or b'').decode()
+    if case == 'automatic' and run.rc == 0 and 'declare-const' in out:
+        # every candidate matches both golden runs as long as the assert
+        # is there: the declaration must have been removed
+        res.violation('matching-candidate-rejected:slow-cross-check',
+                      f'nothing was removed although candidates match both '
+                      f'golden runs: {out!r}', witness)
+
+
 def golden_cc_cases(res, base):
     """The same rule for the cross-check command's golden run."""
     text = ('(declare-const a Int)\n(declare-const b Int)\n'
@@ -313,8 +382,10 @@ def shard(args):
             golden_cases(res, base, r)
         if args['shard'] == 1:
             golden_cc_cases(res, base)
-        if args['shard'] >= 2:
+        if 2 <= args['shard'] < 8:
             golden_timeout_case(res, base, args['shard'] - 2)
+        if args['shard'] >= 8:
+            limit_cases(res, base, args['shard'] - 8)
         for i in range(args['n']):
             text, rules, opts, limit, desc = make_case(r)
             wd = os.path.join(base, f'run{i}')
